@@ -367,8 +367,8 @@ fn v16_boundary() -> Vec<u32> {
     v
 }
 
-fn layer_b(tier: Tier, findings: &Mutex<Findings>) -> (u64, u64, u64, u64, usize) {
-    // 12 configurations: protocol x family x extension mode (+ the Dublin/IPv6 and Paris regimes)
+/// 18 configurations: protocol x family x extension mode (+ the Dublin/IPv6 and Paris regimes)
+fn cells() -> Vec<Cell> {
     let mut cells = vec![];
     for v6 in [false, true] {
         for ext in [false, true] {
@@ -380,6 +380,51 @@ fn layer_b(tier: Tier, findings: &Mutex<Findings>) -> (u64, u64, u64, u64, usize
     }
     cells.push(Cell { proto: Proto::Udp, v6: false, strategy: MultipathStrategy::Paris, ports: Ports::FixedDest, privileged: true, ext: true });
     cells.push(Cell { proto: Proto::Udp, v6: true, strategy: MultipathStrategy::Paris, ports: Ports::FixedDest, privileged: true, ext: true });
+    cells
+}
+
+pub fn replay(path: &str) -> i32 {
+    let s = std::fs::read_to_string(path).expect("MACHINERY: cannot read replay file");
+    let v: serde_json::Value = serde_json::from_str(&s).expect("MACHINERY: replay JSON");
+    let r = if v.get("replay").is_some() { &v["replay"] } else { &v };
+    let bytes: Vec<u8> = r["bytes"].as_array().expect("bytes").iter().map(|b| b.as_u64().unwrap() as u8).collect();
+    println!("replay C04 layer {} ({} octets): {}", r["layer"], bytes.len(), bytes.iter().map(|b| format!("{b:02x}")).collect::<String>());
+    let mut findings = Findings::new();
+    if r["layer"] == "A" {
+        let name = r["view"].as_str().unwrap();
+        let types = pkt::view_types();
+        let vt = types.iter().find(|t| t.name == name).expect("MACHINERY: view type");
+        match mc::catch(|| (vt.exercise)(&bytes, true)) {
+            Ok(Ok(_)) => {}
+            Ok(Err(m)) => add(&mut findings, m, String::new(), json!(null), 0),
+            Err(p) => add(&mut findings, p.key(), format!("{} at {}:{}", p.message, p.file, p.line), json!(null), 0),
+        }
+    } else {
+        let name = r["config"].as_str().unwrap();
+        let cell = cells().into_iter().find(|c| c.name() == name).expect("MACHINERY: config");
+        let p = TraceParams { packet_size: if cell.v6 { 200 } else { 180 }, initial_sequence: 33434, ..TraceParams::default() };
+        let peer = cell.v6.then(|| SocketAddr::new(cell.hop_addr(1, 0), 0));
+        let tl = bytes.len();
+        let mut b = Batch { tmpl: Template { name: "replay", bytes, peer }, off: tl + 10, width: 0, values: vec![0], lengths: vec![tl], vi: 0, li: 0, pad: 0 };
+        let mut stats = Stats::default();
+        run_batch(&cell, &p, &mut b, &mut stats, name);
+        println!("receive path: {} error value(s), {} ignored, {} response(s)", stats.errs, stats.none, stats.responses);
+        findings = stats.findings;
+    }
+    for (k, f) in &findings {
+        println!("DISCREPANCY {k}: {}", f.detail);
+    }
+    if findings.is_empty() {
+        println!("replay: property held");
+        0
+    } else {
+        println!("VIOLATION property=C04 replay={path}");
+        1
+    }
+}
+
+fn layer_b(tier: Tier, findings: &Mutex<Findings>) -> (u64, u64, u64, u64, usize) {
+    let cells = cells();
     struct Unit {
         cell: Cell,
         p: TraceParams,
@@ -518,6 +563,9 @@ fn layer_b(tier: Tier, findings: &Mutex<Findings>) -> (u64, u64, u64, u64, usize
 }
 
 pub fn run(args: &Args) -> i32 {
+    if let Some(path) = &args.replay {
+        return replay(path);
+    }
     let tier = args.tier;
     let mut rep = Report::new("C04", tier, "exploration");
     let findings: Mutex<Findings> = Mutex::new(Findings::new());
